@@ -653,7 +653,7 @@ def run(ctx):
         with open(ctx.replay) as f:
             cases = [('replay', json.load(f)['case'])]
     else:
-        ngen = 400 if ctx.quick() else 6000
+        ngen = 1200 if ctx.quick() else 8000
         for i in range(ngen):
             cases.append((f'gen:{i}', None))
 
@@ -666,8 +666,8 @@ def run(ctx):
             try:
                 states, sens = run_impl(pym, classes, case)
             except Exception as e:      # a valid case must run
-                ctx.violation('correspondence', 'Network.response/sensitivity', 'valid case runs without exception',
-                              'structured stream', dict(name=name, case=case), got=repr(e)[:500])
+                ctx.violation('impl-violates', 'Network.response/sensitivity', 'a well-formed graph evaluates without exception',
+                              'module DAG', dict(name=name, case=case), expected='states and sensitivities', got=repr(e)[:500])
                 states = None
                 break
             # keep every float operation of the implementation exact: |state| <= 2^16, |sensitivity| <= 2^24
